@@ -1,4 +1,4 @@
-import Refine.Lemmas.Cavity2Replace
+import Refine.Lemmas.Cavity2Enlarge
 import Refine.Props.C01
 
 /-!
@@ -170,5 +170,199 @@ theorem replace_tris_ids (g g' : Grid α) (c c' : Cav) (hinv : GridInv g) (h : r
   · obtain ⟨s, hs, hid, _⟩ := replace_ids_from_segs c t h1
     exact Or.inr ⟨s, hs, hid⟩
   · exact Or.inl h1
+
+
+/-- **certified_step**: the executable certificate `certOk` (listed cells live, live faces non-degenerate, ledger
+    check) — evaluated by the drivers on every cavity the real code hands to `ref_cavity_replace` — turns an accepted
+    replacement into a `CavStep2`, i.e. into a step of `cavity_history_conforming_boundary`. -/
+theorem certified_step (g g' : Grid α) (c c' : Cav) (hc : certOk g c = true) (h : replace g c = (.ok, c', g')) :
+    CavStep2 g g' := by
+  simp only [certOk, Bool.and_eq_true, List.all_eq_true] at hc
+  obtain ⟨⟨⟨h1, h2⟩, h3⟩, h4⟩ := hc
+  refine ⟨c, c', ?_, ?_, ?_, ?_, h⟩
+  · intro f hf
+    have := h3 f hf
+    simp only [Face.nondeg, Bool.and_eq_true, bne_iff_ne, ne_eq] at this
+    exact ⟨this.1.1, this.1.2, this.2⟩
+  · intro cell hcell
+    exact Option.isSome_iff_exists.mp (h1 cell hcell)
+  · intro cell hcell
+    exact Option.isSome_iff_exists.mp (h2 cell hcell)
+  · intro H _ χ hχ hd
+    exact ledgerOkAt_sound hχ hd g c h4
+
+/-! ## 2. the enlarge loops
+
+`ref_cavity_enlarge_visible` has no iteration cap in the C (`while (keep_growing)`).  The model runs it with two
+budgets, `visBudget g = (number of tet slots of the grid) + 1` sweeps and as many cavity-changing enlarge calls per
+sweep, and reports `Res.fuel` if one runs out and `Res.hang` if a sweep asks for growth but leaves the cavity as it
+was (the C spins forever on such a state). -/
+
+/-- the cavities the loops are about: consistent blank chains, listed cells live and listed once -/
+abbrev CavOK (g : Grid α) (c : Cav) : Prop := CavInv g c
+
+/-- a fresh cavity (`ref_cavity_create` + `ref_cavity_form_empty`) is fine -/
+theorem cavOK_fresh (g : Grid α) (node : Int) : CavOK g (emptyCav node) :=
+  ⟨SlotsInv.create 10, SlotsInv.create 10, (by intro cell h; cases h), List.nodup_nil,
+    (by intro cell h; cases h), List.nodup_nil⟩
+
+section loops
+variable [Refine.Scalar α]
+
+omit [Refine.Scalar α] in
+theorem cavInv_state {g : Grid α} {c : Cav} (h : CavInv g c) (st : CState) : CavInv g { c with state := st } :=
+  ⟨h.finv, h.sinv, h.tetsLive, h.tetsNodup, h.trisLive, h.trisNodup⟩
+
+/-- **enlargeVisible_terminates** (b): on a cavity whose lists are duplicate free and live, the modelled
+    `ref_cavity_enlarge_visible` never runs out of its budgets — at most `#tet slots − |tet_list| + 1` sweeps, each
+    with at most that many cavity-changing enlarge calls, because every such call lists a new live tet.  What remains
+    is a normal return or `hang`. -/
+theorem enlargeVisible_terminates (g : Grid α) (c : Cav) (hinv : CavOK g c) (c' : Cav) :
+    enlargeVisible g c ≠ .fuel c' := by
+  have hφ : Alt (fun _ _ _ => (0 : Int)) := ⟨fun _ _ _ => rfl, fun _ _ _ => by simp⟩
+  unfold enlargeVisible
+  split
+  · simp
+  · split
+    · simp
+    · rcases verifyFaceManifold_cases c with hv | hv | hv <;> rw [hv] <;> simp only []
+      · have hnf := visLoop_no_fuel hφ g (visBudget g) (visBudget g) c hinv (by simp [visBudget])
+          (by simp only [visBudget]; omega) c'
+        split
+        · next r hr => intro e; subst e; exact hnf hr
+        · split <;> simp
+      · have hnf := visLoop_no_fuel hφ g (visBudget g) (visBudget g) { c with state := .inconsistent }
+          (cavInv_state hinv _) (by simp [visBudget]) (by simp only [visBudget]; omega) c'
+        split
+        · next r hr => intro e; subst e; exact hnf hr
+        · split <;> simp
+      · simp
+
+/-- what a `VISIBLE` verdict of `ref_cavity_enlarge_visible` carries -/
+structure VisibleOutcome (g : Grid α) (c c' : Cav) : Prop where
+  inv : CavOK g c'
+  verified : VerifyPassed c'
+  manifold : cavManifold g c' = true
+  /-- (c) every tet `ref_cavity_replace` will create passed `ref_cavity_visible`: nodes valid, volume not `<= min_volume` -/
+  positive : ∀ t ∈ newTets c', ∃ v, tetVolAt g t.n0 t.n1 t.n2 t.n3 = some v ∧ (v <=. (minVolume : α)) = false
+  /-- (a) the cavity grew by whole tets only: seg side untouched, `tet_list` extended -/
+  same : c'.segs = c.segs ∧ c'.node = c.node ∧ c'.surfNode = c.surfNode ∧ c'.triList = c.triList
+  grew : ∃ new, c'.tetList = c.tetList ++ new
+
+omit [Refine.Scalar α] in
+theorem cavManifold_state (g : Grid α) (c : Cav) (st : CState) : cavManifold g { c with state := st } = cavManifold g c := rfl
+
+theorem faceVisible_positive (g : Grid α) (c : Cav) (f : Face) (h : faceVisible g c f = some true) :
+    ∃ v, tetVolAt g f.n0 f.n1 f.n2 c.node = some v ∧ (v <=. (minVolume : α)) = false := by
+  unfold faceVisible at h
+  cases hv : tetVolAt g f.n0 f.n1 f.n2 c.node with
+  | none => rw [hv] at h; cases h
+  | some v =>
+    rw [hv] at h
+    simp only [Option.some.injEq, Bool.not_eq_true'] at h
+    exact ⟨v, rfl, h⟩
+
+/-- **enlargeVisible_visible** (a)+(c): if `ref_cavity_enlarge_visible`, called on a cavity in state unknown, returns
+    `REF_SUCCESS` with the cavity `VISIBLE`, then the final face verification passed, `ref_cavity_manifold` said yes,
+    every would-be tet has `ref_node_tet_vol > min_volume` (as the modelled predicate decides it), and the ledger
+    equation and the non-degeneracy of the live faces were carried along every step — so
+    `replace_conforming_boundary` applies to whatever cavity the loop ended with. -/
+theorem enlargeVisible_visible {φ : Int → Int → Int → G} (hφ : Alt φ) (g : Grid α) (c c' : Cav)
+    (hinv : CavOK g c) (h0 : c.state = .unknown) (h : enlargeVisible g c = .ret .ok c') (hvis : c'.state = .visible) :
+    VisibleOutcome g c c' ∧ (LedgerEq φ g c → LedgerEq φ g c') ∧
+    ((∀ cell t, g.tets.get? cell = some t → TetNondeg t) → (∀ f ∈ c.validFaces, Nondeg f) →
+      ∀ f ∈ c'.validFaces, Nondeg f) := by
+  -- the part after the initial verification, for a cavity `c0` that differs from `c` in its state only
+  have tail : ∀ c0 : Cav, CavInv g c0 → c0.state ≠ .visible →
+      (match visLoop g (visBudget g) (visBudget g) c0 with
+        | .inl r => r
+        | .inr c1 =>
+          if !(cavManifold g c1) then Res.ret .ok { c1 with state := .manifold_constrained } else
+          let r := verifyFaceManifold { c1 with state := .visible }
+          Res.ret r.1 r.2) = Res.ret .ok c' →
+      ∃ c1, TetStep φ g c0 c1 ∧ cavManifold g c1 = true ∧ c' = { c1 with state := .visible } ∧
+        verifyFaceManifold c' = (.ok, c') ∧ scanVis g c1 c1.faces.rows 0 false = .none false := by
+    intro c0 hi0 hs0 hm
+    split at hm
+    · next r hr =>
+      subst hm
+      exact absurd hvis (visLoop_ret_state hφ g _ _ c0 hi0.finv hs0 _ _ hr)
+    · next c1 hr =>
+      obtain ⟨hstep, _, hsc⟩ := visLoop_done hφ g _ _ c0 c1 hi0.finv hr
+      split at hm
+      · simp only [Res.ret.injEq, true_and] at hm; subst hm; simp at hvis
+      · next hman =>
+        simp only [Res.ret.injEq] at hm
+        obtain ⟨hm1, hm2⟩ := hm
+        have hman' : cavManifold g c1 = true := by simpa using hman
+        rcases verifyFaceManifold_cases { c1 with state := .visible } with hv | hv | hv
+        · rw [hv] at hm2; simp only at hm2; subst hm2
+          exact ⟨c1, hstep, hman', rfl, hv, hsc⟩
+        · rw [hv] at hm2; simp only at hm2; subst hm2; simp at hvis
+        · rw [hv] at hm1; simp at hm1
+  unfold enlargeVisible at h
+  split at h
+  · simp only [Res.ret.injEq] at h; exact absurd h.1 (by decide)
+  · rw [if_neg (by simp [h0])] at h
+    -- both outcomes of the initial verification leave the lists alone
+    have fin : ∀ c0 : Cav, CavInv g c0 → c0.state ≠ .visible → c0.faces = c.faces → c0.segs = c.segs →
+        c0.node = c.node → c0.surfNode = c.surfNode → c0.tetList = c.tetList → c0.triList = c.triList →
+        (∃ c1, TetStep φ g c0 c1 ∧ cavManifold g c1 = true ∧ c' = { c1 with state := .visible } ∧
+          verifyFaceManifold c' = (.ok, c') ∧ scanVis g c1 c1.faces.rows 0 false = .none false) →
+        VisibleOutcome g c c' ∧ (LedgerEq φ g c → LedgerEq φ g c') ∧
+        ((∀ cell t, g.tets.get? cell = some t → TetNondeg t) → (∀ f ∈ c.validFaces, Nondeg f) →
+          ∀ f ∈ c'.validFaces, Nondeg f) := by
+      intro c0 hi0 _ ef es en esf et etr ⟨c1, hstep, hman, hc', hver, hsc⟩
+      subst hc'
+      obtain ⟨new, t1, _, _, _, _, _, _⟩ := hstep.grow
+      obtain ⟨a1, a2, a3, a4⟩ := hstep.same
+      have hi1 : CavInv g c1 := hi0.of_step hstep
+      refine ⟨⟨cavInv_state hi1 _, ⟨hver, by simp⟩, by rw [cavManifold_state]; exact hman, ?_,
+        ⟨a1.trans es, a2.trans en, a3.trans esf, a4.trans etr⟩, ⟨new, by rw [← et]; exact t1⟩⟩, ?_, ?_⟩
+      · intro t ht
+        simp only [newTets, Cav.validFaces, List.mem_filterMap] at ht
+        obtain ⟨f, hf, hft⟩ := ht
+        unfold newTetOf at hft
+        split at hft
+        · cases hft
+        · next hhas =>
+          simp only [Option.some.injEq] at hft; subst hft
+          have hmem : some f ∈ c1.faces.rows := by
+            simp only [Slots.valid, List.reduceOption, List.mem_filterMap, id] at hf
+            obtain ⟨a, ha, rfl⟩ := hf
+            exact ha
+          have := scanVis_none_false g c1 c1.faces.rows 0 hsc f hmem (by simpa using hhas)
+          exact faceVisible_positive g c1 f this
+      · intro hl
+        have hl0 : LedgerEq φ g c0 := by
+          unfold LedgerEq ledgerVal at hl ⊢
+          simp only [Cav.validSegs, Cav.segNode, ef, es, en, esf, et, etr] at hl ⊢
+          exact hl
+        exact hstep.ledger hl0
+      · intro hg hnd
+        have hnd0 : ∀ f ∈ c0.validFaces, Nondeg f := by
+          intro f hf; exact hnd f (by simpa [Cav.validFaces, ef] using hf)
+        exact hstep.faceNd hg hnd0
+    rcases verifyFaceManifold_cases c with hv | hv | hv <;> rw [hv] at h <;> simp only [] at h
+    · exact fin c hinv (by rw [h0]; decide) rfl rfl rfl rfl rfl rfl (tail c hinv (by rw [h0]; decide) h)
+    · exact fin { c with state := .inconsistent } (cavInv_state hinv _) (by simp) rfl rfl rfl rfl rfl rfl
+        (tail _ (cavInv_state hinv _) (by simp) h)
+    · simp only [Res.ret.injEq] at h; exact absurd h.1 (by decide)
+
+/-- **enlargeVisible_step** (Part 2 ⇒ Part 1): a cavity that satisfied the hypotheses of Part 1 before
+    `ref_cavity_enlarge_visible` and comes back ok + `VISIBLE`, and which `ref_cavity_replace` then accepts, is a
+    `CavStep2` — so the history theorem covers it. -/
+theorem enlargeVisible_step (g g' : Grid α) (c c' c'' : Cav) (hok : GridOK g) (hinv : CavOK g c)
+    (h0 : c.state = .unknown) (hnd : ∀ f ∈ c.validFaces, Nondeg f)
+    (hled : ∀ (H : Type) [AddCommGroup H] (χ : Int → Int → Int → H), Alt χ → Diag χ → LedgerEq χ g c)
+    (h : enlargeVisible g c = .ret .ok c') (hvis : c'.state = .visible)
+    (hrep : replace g c' = (.ok, c'', g')) : CavStep2 g g' := by
+  have hφ0 : Alt (fun _ _ _ => (0 : Int)) := ⟨fun _ _ _ => rfl, fun _ _ _ => by simp⟩
+  obtain ⟨out, _, hnd'⟩ := enlargeVisible_visible hφ0 g c c' hinv h0 h hvis
+  refine ⟨c', c'', hnd' hok.nondeg hnd, out.inv.tetsLive, out.inv.trisLive, ?_, hrep⟩
+  intro H _ χ hχ hd
+  exact (enlargeVisible_visible hχ g c c' hinv h0 h hvis).2.1 (hled H χ hχ hd)
+
+end loops
 
 end Refine.Props.C01Cavity2
